@@ -12,7 +12,7 @@ import (
 func init() {
 	reg("C29", Meta{
 		Technique:   "must-guard reachability on SSA for the reply filter, dominance of the limit clamp, symbolic/interval check that the two sub-limits sum to at most the requested limit, relational guard check of the truncation helper",
-		Explanation: "C29 (peer-exchange replies), structural clauses: (F1) the clamp `Limit > maxPeersLimit → Limit = maxPeersLimit` dominates every other read of the requested limit; (I1) on every path the two pass limits are either `k = L/2, L - k` (sum exactly L) or constants whose sum is at most the lower bound of L on that path, and the reply is the concatenation of two randPeersLimit results; (I2) randPeersLimit(p, n) returns p[:n] or p behind len(p) <= n; (G1) a peer is appended to the reply only behind !MemberOf(skip), inArray(proximity(target, peer), req.Pos), and (AllowPrivateCIDRs ∨ ¬requester-public ∨ ¬IsPrivateAddr); (P1) the skip list starts with the requester and the first-pass picks are added to it before the second pass (no repeats), the proximity is computed between the requested target and the candidate. Not decided: randomness/fairness of the selection.",
+		Explanation: "C29 (peer-exchange replies), structural clauses: (F1) the clamp `Limit > maxPeersLimit → Limit = maxPeersLimit` dominates every other read of the requested limit; (I1) on every path the two pass limits are either `k = L/2, L - k` (sum exactly L) or constants whose sum is at most the lower bound of L on that path, and the reply is the concatenation of two randPeersLimit results; (I2) randPeersLimit(p, n) returns p[:n] or p behind len(p) <= n; (G1) a peer is appended to the reply only behind !MemberOf(skip), inArray(proximity(target, peer), req.Pos), and (AllowPrivateCIDRs ∨ ¬requester-public ∨ ¬IsPrivateAddr); (P1) the skip list starts with the requester, only ever grows (every assignment is the initial literal or append(skip, …)), and the first-pass picks are added to it before the second pass (no repeats), the proximity is computed between the requested target and the candidate. Not decided: randomness/fairness of the selection.",
 	}, c29)
 }
 
@@ -252,6 +252,34 @@ func c29(r *core.Run) {
 						}
 					}
 				}
+			}
+		}
+	}
+	// the skip list only grows: every assignment is the initial literal or append(skip, …)
+	if skipCell != nil {
+		check := func(f *ssa.Function, cell ssa.Value) {
+			for _, u := range core.Uses(cell) {
+				st, ok := u.(*ssa.Store)
+				if !ok || st.Addr != cell {
+					continue
+				}
+				okGrow := false
+				if el := variadicElems(st.Val); len(el) >= 1 && st.Parent() == fn {
+					okGrow = true // the initial literal (checked below to hold the requester)
+				}
+				if c, isApp := isBuiltinCall(st.Val, "append"); isApp {
+					if p, isLoad := core.LoadedFrom(c.Call.Args[0]); isLoad && p == cell {
+						okGrow = true
+					}
+				}
+				r.Check("C29.P1", lsKey("C29.P1", f, "skip list only grows"), st.Pos(), okGrow,
+					"the skip list is only ever extended (requester first, then every pick)", "the skip list is reset or re-sliced between the passes: the requester (and earlier picks) can be offered in the second pass")
+			}
+		}
+		check(fn, skipCell)
+		for _, fv := range cl.FreeVars {
+			if fv.Name() == "skip" {
+				check(cl, fv)
 			}
 		}
 	}
